@@ -59,8 +59,12 @@ def load_vendors(repo: Repo) -> Dict[str, Vendor]:
                 elif st.name == "hardware" and rets and isinstance(rets[0].value, ast.Call) and rets[0].value.args \
                         and isinstance(rets[0].value.args[0], ast.Constant):
                     v.hardware = rets[0].value.args[0].value
-                elif st.name == "make_formatter" and rets and isinstance(rets[0].value, ast.Call):
-                    v.formatter = dotted(rets[0].value.func)
+                elif st.name == "make_formatter":
+                    ctor = [n for n in walk_no_nested(st) if isinstance(n, ast.Call) and (dotted(n.func) or "").endswith("Formatter")]
+                    if ctor:
+                        v.formatter = dotted(ctor[0].func)
+                    elif st.returns is not None and dotted(st.returns):
+                        v.formatter = dotted(st.returns)
                 elif st.name == "diff":
                     # return "x" if order else "y"
                     for r in rets:
